@@ -543,7 +543,10 @@ impl Engine for C10 {
                     let prev_is_list = blocks.iter().any(|(_, e, k)| *k == "list" && *e < line as usize && blocks.iter().all(|(s2, _, _)| !(*s2 > *e && *s2 < line as usize)));
                     let next_is_list = blocks.iter().any(|(s, _, k)| *k == "list" && *s >= sec_end && blocks.iter().all(|(s2, _, _)| !(*s2 >= sec_end && *s2 < *s)));
                     let contains_list = blocks.iter().any(|(s, _, k)| *k == "list" && *s > line as usize && *s < sec_end);
-                    if !prev_is_list && !next_is_list && !contains_list {
+                    // inside a quote the neighbours of the section are not visible to the top-level
+                    // block scan: when the note has lists inside quotes the exemption is assumed
+                    let in_quote_with_list = text.split('\n').nth(line as usize).map(|l| l.trim_start().starts_with('>')).unwrap_or(false) && p.feats.iter().any(|f| f == "list");
+                    if !prev_is_list && !next_is_list && !contains_list && !in_quote_with_list {
                         tr += 2;
                         match apply_kind(&lib2, line, K_LIST_TO_SECTIONS) {
                             Ok(Some(l3)) => {
